@@ -186,8 +186,15 @@ func workerMain(t *testing.T) {
 			min := c
 			shrunk := false
 			if os.Getenv("VERIF_NOSHRINK") == "" {
-				m, _ := shrinkCase(c, sig, run, 400)
-				min, shrunk = m, true
+				if v.Kind == "livelock" || v.Kind == "stalled-on-lock" {
+					childTimeoutOverride = 12 * time.Second
+					m, _ := shrinkCase(c, sig, run, 8)
+					childTimeoutOverride = 0
+					min, shrunk = m, true
+				} else {
+					m, _ := shrinkCase(c, sig, run, 400)
+					min, shrunk = m, true
+				}
 			}
 			// re-execute the minimised case to get the violation record that goes with it
 			mo := run(min)
@@ -308,6 +315,10 @@ func replayMain(t *testing.T) int {
 
 // runIsolated executes a case in a child process; a crash of the child with a Go panic is
 // turned into a violation of kind "panic".
+// childTimeoutOverride shortens the watchdog while a hang is being minimised (every attempt that
+// still hangs costs the whole limit).
+var childTimeoutOverride time.Duration
+
 func runIsolated(bin string, c *Case) *Outcome {
 	o := newOutcome()
 	dir := os.Getenv("VERIF_DATA")
@@ -334,6 +345,9 @@ func runIsolated(bin string, c *Case) *Outcome {
 		done := make(chan error, 1)
 		go func() { done <- cmd.Wait() }()
 		limit := time.Duration(envInt("VERIF_CHILD_TIMEOUT_S", 90)) * time.Second
+		if childTimeoutOverride > 0 {
+			limit = childTimeoutOverride
+		}
 		select {
 		case err = <-done:
 		case <-time.After(limit):
@@ -352,6 +366,12 @@ func runIsolated(bin string, c *Case) *Outcome {
 		os.WriteFile(filepath.Join(dir, fmt.Sprintf("hang-%d.txt", os.Getpid())), []byte(all), 0644)
 		if frame := runningFrame(all); frame != "" {
 			o.violate(c.Prop, "livelock", -1, 0, map[string]string{"frame": frame}, "the simulated broker never became idle: a goroutine kept running in %s (child killed after %v)", frame, time.Duration(envInt("VERIF_CHILD_TIMEOUT_S", 90))*time.Second)
+			return o
+		}
+		if frame := lockBlockedFrame(all); frame != "" {
+			// nothing runs, yet the bubble never became idle: a broker goroutine waits for a mutex
+			// (not a durable block for synctest) that nobody is going to release
+			o.violate(c.Prop, "stalled-on-lock", -1, 0, map[string]string{"frame": frame}, "the simulated broker stopped making progress: no goroutine is running and one waits for a lock in %s (child killed after %v)", frame, time.Duration(envInt("VERIF_CHILD_TIMEOUT_S", 90))*time.Second)
 			return o
 		}
 		fmt.Fprintf(os.Stderr, "isolated run hung without a running wasp frame; dump in %s\n%s\n", dir, tail(all, 3000))
@@ -524,7 +544,7 @@ func driverMain(t *testing.T) int {
 			wg.Add(1)
 			go func(k int) {
 				defer wg.Done()
-				wctx, wcancel := context.WithTimeout(context.Background(), time.Duration(budgetS*2+240)*time.Second)
+				wctx, wcancel := context.WithTimeout(context.Background(), time.Duration(budgetS*2+420)*time.Second)
 				defer wcancel()
 				cmd := exec.CommandContext(wctx, bin, "-test.run", "^TestEntry$", "-test.timeout", "0")
 				gmp := "1"
@@ -848,6 +868,37 @@ func selftestMain() int {
 		return 2
 	}
 	return 0
+}
+
+// lockBlockedFrame finds a goroutine waiting for a sync.Mutex / sync.RWMutex whose innermost
+// frame outside runtime and sync belongs to wasp, and returns that frame.
+func lockBlockedFrame(dump string) string {
+	for _, b := range strings.Split(dump, "\n\n") {
+		lines := strings.Split(b, "\n")
+		if len(lines) == 0 || !strings.HasPrefix(lines[0], "goroutine ") {
+			continue
+		}
+		if !strings.Contains(lines[0], "[sync.Mutex.Lock") && !strings.Contains(lines[0], "[sync.RWMutex.") {
+			continue
+		}
+		for _, l := range lines[1:] {
+			if strings.HasPrefix(l, "\t") {
+				continue // file:line
+			}
+			l = strings.TrimSpace(l)
+			if strings.HasPrefix(l, "runtime.") || strings.HasPrefix(l, "sync.") || strings.HasPrefix(l, "internal/sync.") || strings.HasPrefix(l, "internal/") {
+				continue
+			}
+			if strings.HasPrefix(l, "github.com/vx-labs/wasp/") && !strings.Contains(l, "/verifrt.") {
+				if i := strings.LastIndex(l, "("); i > 0 {
+					l = l[:i]
+				}
+				return l
+			}
+			break // the lock belongs to somebody else's code
+		}
+	}
+	return ""
 }
 
 // runningFrame finds, in a SIGQUIT goroutine dump, a goroutine in state "running" or "runnable"
